@@ -161,7 +161,7 @@ static const uint8_t BIN_00FF[] = { 0x00, 0xff, 0x00, 0x80 };
 
 enum { D_VERSION, D_NUMROWS, D_NSCHEMA, D_NAME, D_TYPE, D_REP, D_CONV, D_FIELDID, D_LOGICAL, D_NRG, D_NCOLS, D_CHUNK, D_CMINTS, D_NENC, D_NPATH,
        D_CODEC, D_OPTOFF, D_STATS, D_KV, D_CREATED, D_RGOPT, D_CHIDX, D_COLKV, D_ENCSTATS, NDIM };
-static const int DSZ[NDIM] = { 6, 6, 5, 4, 5, 4, 5, 5, 20, 3, 3, 4, 6, 7, 7, 6, 4, 9, 5, 4, 5, 3, 3, 3 };
+static const int DSZ[NDIM] = { 6, 6, 5, 4, 5, 4, 5, 5, 20, 3, 3, 4, 6, 7, 7, 6, 4, 9, 5, 4, 5, 5, 3, 3 };
 static const char* DNAME[NDIM] = { "version", "num_rows", "schema_size", "name", "type", "repetition", "converted", "field_id", "logical", "row_groups", "columns", "chunk",
                                    "colmeta_ints", "n_encodings", "n_path", "codec", "opt_offsets", "statistics", "key_value", "created_by", "rg_optional", "chunk_index", "col_kv", "encoding_stats" };
 
@@ -233,6 +233,8 @@ static void build_file(const int* ch, ref_file_meta* m) {
             switch (ch[D_CHUNK]) { case 1: k->file_path = B("f"); k->file_offset = 4; break; case 2: k->file_offset = -1; break; case 3: k->file_offset = INT64_MAX; k->file_path = B(""); break; default: k->file_offset = 0; break; }
             if (ch[D_CHIDX] == 1) { k->has_oi_offset = true; k->oi_offset = 1000; k->has_oi_length = true; k->oi_length = 20; k->has_ci_offset = true; k->ci_offset = 2000; k->has_ci_length = true; k->ci_length = 30; }
             else if (ch[D_CHIDX] == 2) { k->has_oi_offset = true; k->oi_offset = INT64_MIN; k->has_ci_length = true; k->ci_length = INT32_MIN; }
+            else if (ch[D_CHIDX] == 3) { k->has_oi_offset = true; k->oi_offset = (int64_t)1 << 31; k->has_oi_length = true; k->oi_length = INT32_MAX; k->has_ci_offset = true; k->ci_offset = ((int64_t)1 << 32) + 5; k->has_ci_length = true; k->ci_length = 1; }      /* page indexes of a file beyond 2 and 4 GiB */
+            else if (ch[D_CHIDX] == 4) { k->has_oi_offset = true; k->oi_offset = -((int64_t)1 << 31) - 1; k->has_ci_offset = true; k->ci_offset = INT64_MAX; }
             k->has_meta = true; ref_col_meta* cm = &k->meta;
             cm->type = 1;
             static const int NL[] = { 1, 0, 14, 15, 16, 99, 100 };       /* 100 = the parser's documented maximum for these lists */
